@@ -44,7 +44,7 @@ def plan(tier):
 
 
 def floors(tier):
-    return {"distinct_nontrivial": 500, "snapshots_compared": 5000, "max:arms_executed_min": 1, "entries_seen": 4}
+    return {"distinct_nontrivial": 500, "snapshots_compared": 5000, "max:arms_executed_min": 1, "entries_seen": 5}
 
 
 def gen_case(rng, tier, idx, fill=False):
@@ -57,8 +57,13 @@ def gen_case(rng, tier, idx, fill=False):
                              max_gap_buckets=12 if fill else 60)
     sch = schedules.rand_schedule(rng, n, bucket=max(1, tf_s // step), encs=("candle", "dict", "list"))
     sch["precalc"] = False
-    return {"rows": rows, "tf": tf, "entry": rng.choice(["manager", "manager", "indicator", "hexital_member", "hexital_level"]),
+    return {"rows": rows, "tf": tf, "entry": rng.choice(["manager", "manager", "indicator", "hexital_member", "hexital_level", "hexital_members2"]),
             "schedule": sch, "extra_passes": rng.choice([0, 0, 0, 1, 2, 3]), "ts_mode": mode, "fill": fill, "tf_enum": rng.random() < 0.25}
+
+
+def coarser(tf):
+    s_ = tf_seconds(tf) * 3
+    return f"S{s_}" if s_ % 60 else (f"T{s_ // 60}" if s_ % 3600 else (f"H{s_ // 3600}" if s_ % 86400 else f"D{s_ // 86400}"))
 
 
 def tf_arg(tf, as_enum):
@@ -74,6 +79,7 @@ def tf_arg(tf, as_enum):
 class Target:
     def __init__(self, entry, tf, fill, candles, as_enum=False):
         self.entry = entry
+        self.extra = []
         tf_key = tf
         tf = tf_arg(tf, as_enum)
         if entry == "manager":
@@ -85,6 +91,12 @@ class Target:
         elif entry == "hexital_member":
             self.obj = Hexital("t", candles, [SMA(period=3, timeframe=tf)], timeframe_fill=fill)
             self.mgr = self.obj._candles[tf_key.upper()]
+        elif entry == "hexital_members2":
+            # two new member timeframes created in the same call over a non-empty base list: each must get its own candles
+            tf2 = coarser(tf_key)
+            self.obj = Hexital("t", candles, [SMA(period=3, timeframe=tf), SMA(period=2, timeframe=tf2)], timeframe_fill=fill)
+            self.mgr = self.obj._candles[tf_key.upper()]
+            self.extra = [(tf2, self.obj._candles[tf2.upper()])]
         elif entry == "hexital_level":
             self.obj = Hexital("t", candles, [SMA(period=3)], timeframe=tf, timeframe_fill=fill)
             self.mgr = self.obj._candles["default"]
@@ -92,7 +104,7 @@ class Target:
             raise ValueError(entry)
 
     def candles(self):
-        if self.entry == "hexital_member":
+        if self.entry in ("hexital_member", "hexital_members2"):
             return self.obj.candles(self.mgr.name)
         if self.entry == "hexital_level":
             return self.obj.candles()
@@ -141,6 +153,15 @@ def run_case(case):
     prop = "C12" if fill else "C03"
 
     def check(t, consumed, where):
+        for tf2, mgr2 in t.extra:
+            g2 = got_rows(mgr2.candles)
+            w2 = resample(drows[:consumed], tf2, fill)
+            stats["snapshots_compared"] = stats.get("snapshots_compared", 0) + 1
+            d2 = compare(g2, w2)
+            if d2:
+                viol.append({"monitor": "online-resample-reference", "sig": f"{prop}|{d2[0]}|{entry}|second-member-timeframe",
+                             "detail": f"{where} (rows consumed {consumed}, second member timeframe {tf2}): {d2[0]} at bucket {d2[1]}: got {short(g2[max(0, d2[1] - 1):d2[1] + 2], 400)} want {short(w2[max(0, d2[1] - 1):d2[1] + 2], 400)}"})
+                return False
         got = got_rows(t.candles())
         stats["snapshots_compared"] = stats.get("snapshots_compared", 0) + 1
         st = structural(got, s)
